@@ -248,6 +248,11 @@ func (p *C16) Gen(seed uint64, i int, tier string) *scen.Scenario {
 			case 2:
 				ts.Ns = int64(r.Intn(1000)) * 1000
 			}
+			if sc.World.Clock.Local != "" && r.Chance(1, 3) {
+				// an instant that carries time.Local itself (what time.Now() and Time.Local() return), with the
+				// process's local zone set to something else than what the process started with
+				ts.Zone = "Local"
+			}
 			switch r.Intn(12) {
 			case 0:
 				ts.S, ts.Ns = -62135596800, 0 // 0001-01-01T00:00:00Z exactly (the zero time.Time)
@@ -514,7 +519,11 @@ func (p *C16) Check(sc *scen.Scenario, run *orch.Run, env *orch.Env) []orch.Viol
 				if op.Op == "handler_handle" {
 					entry = "slog.Handler.Handle"
 				}
-				inst = time.Unix(op.T.S, op.T.Ns).In(c16Zone(op.T.Zone))
+				zone := op.T.Zone
+				if zone == "Local" {
+					zone = sc.World.Clock.Local // what the world set time.Local to
+				}
+				inst = time.Unix(op.T.S, op.T.Ns).In(c16Zone(zone))
 			} else {
 				// the record's own instant is a clock read of the call (exactly one on the pinned tree; an
 				// implementation that reads the clock again for something else is not wrong, so any of
